@@ -120,7 +120,10 @@ WalkR(st, c, id, path, acc, fuel, k) ==
     \* a directory that cannot be listed (search permission on the way to it, read permission on it) is reported to the
     \* callback a second time, with the error; the callback of the universe hands that error back, which ends the walk
     ELSE IF Res(st, [abs |-> TRUE, parts |-> path], TRUE).err # "ok" \/ ~May(st, id, 4)
-         THEN [seen |-> Append(seen1, PathStrK(TRUE, path, k)), stop |-> "eacces"]
+         THEN (IF c.flag = <<"ErrSkip">>
+               \* (the callback that answers SkipDir to an error: the directory is skipped, the walk goes on)
+               THEN [seen |-> Append(seen1, PathStrK(TRUE, path, k)), stop |-> ""]
+               ELSE [seen |-> Append(seen1, PathStrK(TRUE, path, k)), stop |-> "eacces"])
     ELSE
     LET RECURSIVE Kids(_, _)
         Kids(ns, a) ==
@@ -135,7 +138,9 @@ WalkDirK(st, c, k) ==
     LET r == Res(st, c.p, FALSE) IN
     IF r.err # "ok" \/ r.id = 0 THEN
         \* the callback is told about the failing Lstat of the root and returns that error
-        Ret([R0 EXCEPT !.err = IF r.err # "ok" THEN r.err ELSE "ENOENT", !.names = <<PathStrK(c.p.abs, c.p.parts, k)>>], st)
+        \* (SkipDir in answer to it ends the walk without an error)
+        Ret([R0 EXCEPT !.err = IF c.flag = <<"ErrSkip">> THEN "ok" ELSE IF r.err # "ok" THEN r.err ELSE "ENOENT",
+                       !.names = <<PathStrK(c.p.abs, c.p.parts, k)>>, !.n = IF c.flag = <<"ErrSkip">> THEN 1 ELSE 0], st)
     ELSE LET w == WalkR(st, c, r.id, c.p.parts, [seen |-> <<>>, stop |-> ""], 8, k) IN
          Ret([R0 EXCEPT !.err = IF w.stop = "err" THEN "ECALLBACK" ELSE IF w.stop = "eacces" THEN "EACCES" ELSE "ok",
                         !.names = w.seen, !.n = IF w.stop = "eacces" THEN 0 ELSE Len(w.seen)], st)
